@@ -29,7 +29,7 @@ ASSUMPTIONS = ['threaded side runs under the canonical FIFO schedule',
                'bound)',
                'disconnect() of all clients is not in the alphabet (it blocks '
                'differently under known finding K1)']
-REQUIRED = ['steps_compared', 'event_streams', 'delivery_streams',
+REQUIRED = ['steps_compared', 'histories_with_odd_handlers', 'event_streams', 'delivery_streams',
             'status_compared', 'liveness_compared']
 SHARD_TIMEOUT = {'quick': 500, 'thorough': 3400}
 PI, PT = 5, 3
@@ -111,15 +111,27 @@ def gen_actions(rng):
                 ['DELETE', {'sid': '$'}]])])
         else:
             acts.append(['adv', rng.choice([0.5, 1, PI, PT, PI + PT])])
-    return acts, script
+    # application handlers: a share of the histories uses handlers that block
+    # / await after they were entered, fail every time (Exception or
+    # BaseException-only), or have the legacy one-argument disconnect form
+    hcfg = {}
+    if rng.random() < 0.3:
+        hcfg['suspend'] = {rng.choice(['message', 'disconnect']):
+                           rng.choice([0.25, 1.0])}
+    if rng.random() < 0.15:
+        hcfg['boom'] = {rng.choice(['message:*', 'disconnect:*']): True}
+        hcfg['boom_base'] = rng.random() < 0.5
+    if rng.random() < 0.15:
+        hcfg['legacy_disconnect'] = True
+    return acts, script, hcfg
 
 
 class Side:
-    def __init__(self, kind, script):
+    def __init__(self, kind, script, hcfg=None):
         self.sim = scen.make_sim(kind, server_kwargs={
             'ping_interval': PI, 'ping_timeout': PT,
-            'max_http_buffer_size': 2000}, handler_cfg={'connect': script},
-            policy='fifo')
+            'max_http_buffer_size': 2000},
+            handler_cfg=dict(hcfg or {}, connect=script), policy='fifo')
         self.R = hist.Runner(self.sim)
         self.ev_seen = 0
         self.dl_seen = 0
@@ -292,13 +304,16 @@ class Side:
 
 def run_history(rec, case):
     rng = gen.mkrng('c18', case['seed'], case['i'])
-    acts, script = gen_actions(rng)
+    acts, script, hcfg = gen_actions(rng)
     rec.evaluations += 1
-    T = Side('T', script)
-    A = Side('A', script)
+    T = Side('T', script, hcfg)
+    A = Side('A', script, hcfg)
+    if hcfg:
+        rec.count('histories_with_odd_handlers')
 
     def V(key, msg):
-        rec.viol(key, msg, dict(case, actions=acts[:80]))
+        rec.viol(key, msg + ' ; handlers %r' % (hcfg,),
+                 dict(case, actions=acts[:80]))
     try:
         for i, a in enumerate(acts):
             T.do(a)
